@@ -8,8 +8,9 @@ import time
 from vlib import tlc
 
 ROOT = tlc.ROOT
-EVID = os.path.join(ROOT, "evidence")
-REPL = os.path.join(ROOT, "replays")
+OUT = os.environ.get("VERIF_OUT") or ROOT          # self-tests against patched trees write elsewhere
+EVID = os.path.join(OUT, "evidence")
+REPL = os.path.join(OUT, "replays")
 FINDINGS = os.path.join(ROOT, "known_findings.json")
 
 
